@@ -2906,14 +2906,21 @@ primary_expression
         if ($1.type == EXPRESSION_TYPE_INTEGER &&
             $3.type == EXPRESSION_TYPE_INTEGER)
         {
-          if ($3.value.integer != 0)
+          if ($3.value.integer == 0)
           {
-            $$.value.integer = OPERATION(/, $1.value.integer, $3.value.integer);
+            result = ERROR_DIVISION_BY_ZERO;
+          }
+          else if ($1.value.integer == INT64_MIN && $3.value.integer == -1)
+          {
+            // INT64_MIN \ -1 overflows (and traps on some CPUs), the result
+            // is undefined as it is when computed at scan time.
+            $$.value.integer = YR_UNDEFINED;
             $$.type = EXPRESSION_TYPE_INTEGER;
           }
           else
           {
-            result = ERROR_DIVISION_BY_ZERO;
+            $$.value.integer = OPERATION(/, $1.value.integer, $3.value.integer);
+            $$.type = EXPRESSION_TYPE_INTEGER;
           }
         }
         else
@@ -2930,14 +2937,21 @@ primary_expression
 
         fail_if_error(yr_parser_emit(yyscanner, OP_MOD, NULL));
 
-        if ($3.value.integer != 0)
+        if ($3.value.integer == 0)
         {
-          $$.value.integer = OPERATION(%, $1.value.integer, $3.value.integer);
+          fail_if_error(ERROR_DIVISION_BY_ZERO);
+        }
+        else if ($1.value.integer == INT64_MIN && $3.value.integer == -1)
+        {
+          // INT64_MIN % -1 overflows (and traps on some CPUs), the result
+          // is undefined as it is when computed at scan time.
+          $$.value.integer = YR_UNDEFINED;
           $$.type = EXPRESSION_TYPE_INTEGER;
         }
         else
         {
-          fail_if_error(ERROR_DIVISION_BY_ZERO);
+          $$.value.integer = OPERATION(%, $1.value.integer, $3.value.integer);
+          $$.type = EXPRESSION_TYPE_INTEGER;
         }
       }
     | primary_expression '^' primary_expression
